@@ -187,3 +187,4 @@ reg('C13', 'streams', 'rule_name_sibling')        # an empty insertion inside a 
 reg('C06', 'streams', 'rule_name_sibling')        # composites preserve the name a child attributes to its text
 reg('C12', 'codec', 'rule_vlq_field_reset')       # redundant continuation digits are legal VLQ: a field ends with the digit state cleared
 reg('C08', 'codec', 'rule_vlq_field_reset')       # the attached map is read by this decoder
+reg('C17', 'panics', 'rule_lookup_unwrap', ('dev', 'release'))   # a name / source index beyond a supplied map's tables must not panic
